@@ -290,8 +290,8 @@ def unique_function_names(proj):
     name defined in two files of one program makes unusedFunction report a different one of the two
     definitions depending on the summary storage (in memory: first file, build dir: last file).  That
     defect has its own witness in C22; the history/option monitors (C18, C19) keep function names unique
-    so that it is not rediscovered under every edit/option key.  projgen's only duplicate is the member
-    `geta` of its ODR pair and the members `get`/`calc` of two class snippets (never called)."""
+    so that it is not rediscovered under every edit/option key.  projgen's only duplicates are the member
+    `geta` of its ODR pair and the members `get`/`calc` of two class snippets (all never called)."""
     uniq_text_all(proj.files, proj.sources, 'u')
     return proj
 
